@@ -1,0 +1,12 @@
+//go:build verif
+
+package listeners
+
+// VerifSched, when set, is called at the schedule points of the accept loops (build tag verif only).
+var VerifSched func(point string, listener string)
+
+func verifAt(point string, listener string) {
+	if f := VerifSched; f != nil {
+		f(point, listener)
+	}
+}
